@@ -140,7 +140,7 @@ def run(ctx, rep):
                 rep.ob('R11.1', key, False, f'result is not built by NaiveTime::from_hms_opt: {show(ret)[:120]}')
                 continue
             n_cells += 1
-            H, M, S = (strip_cast(a) for a in app[2])
+            H, M, S = (strip_cast(E.specialise(a, lv[0].asm)) for a in app[2])
             X = wrap24_of(H)
             if X is None:
                 rep.ob('R11.4', f'{key}:wrap24', False, f'hour operand is not `if h >= 24 {{ h % 24 }} else {{ h }}`: {show(H, maxd=5)[:160]}')
@@ -203,7 +203,7 @@ def run(ctx, rep):
             if vi == 0 and k == 'Fajr':
                 rep.sample({'cell': key, 'H': show(H, maxd=6)[:300], 'M': show(M, maxd=4)[:200], 'S': show(S, maxd=4)[:200]})
             if eng.incomplete:
-                rep.ob('engine', f'incomplete:{key}', False, str(eng.incomplete[:2]))
+                rep.ob('engine', f'incomplete:{key}', None, str(eng.incomplete[:2]))
     rep.floor('decision-table cells', n_cells, 24)
     rep.extra['cells'] = n_cells
     rep.extra['exhaustive'] = True
